@@ -34,6 +34,7 @@ def shards(tier, seed):
     out.append(("child_hashseed_SECP160r1", dict(kind="keys", cname="SECP160r1", nrand=1, lzsearch=False, _pyopt="hashseed")))
     if not q:
         out.append(("openssl", dict(kind="openssl", count=12)))
+    out.append(("near_recursion_limit", dict(kind="near_limit")))
     return out
 
 
@@ -244,6 +245,8 @@ def check_key(ctx, curve, dom, d, named, lzhint=None):
 
 def run(ctx, name, kind, **kw):
     rng = ctx.rng
+    if kind == "near_limit":
+        return sigs.near_limit(ctx, rng, ["NIST224p", "NIST521p", "SECP112r2"], ['load_private', 'load_public'])
     if kind == "keys":
         c = lib.BY_NAME[kw["cname"]]
         dom = lib.dom_of(c)
